@@ -1,6 +1,6 @@
 (** Replay entry point: input = (threads schedule), output = per-step (label, projected state) + final log. *)
 From Coq Require Import List NArith ZArith Bool.
-From Vivid Require Import Base.Tm Mailbox.MbModel.
+From Vivid Require Import Base.Tm Mailbox.MbModel Mailbox.MbFine Mailbox.MbClass.
 Import ListNotations.
 Local Open Scope N_scope.
 
@@ -21,12 +21,9 @@ Fixpoint start_inline (i : nat) (fl : list bool) (s : st) : st :=
   | b :: r => start_inline (S i) r (if b then step_or_stay s i else s)
   end.
 
-Definition label_code (l : label) : N :=
-  match l with
-  | LStart => 1 | LPushSys => 2 | LPushUser => 3 | LAddSys => 4 | LAddUser => 5 | LCasStatus => 6
-  | LStorePaused => 7 | LCasPaused => 8 | LPopSys => 9 | LDecSys => 10 | LHandle => 11 | LLoadPaused => 12
-  | LPopUser => 13 | LDecUser => 14 | LStoreStatus => 15 | LLoadNum => 16 | LLoadSys => 17 | LNone => 0
-  end.
+(** what crosses the boundary per step is the OPERATION CLASS of the stepping thread's pc (Mailbox/MbClass.v: kind of
+    operation + field, independent of the enclosing function), not a per-pc label *)
+Definition pc_code (p : pc) : N := class_code (class_of_pc p).
 
 Definition proj (s : st) : list tm :=
   [tbool (status s); tbool (paused s); tz (num s); tz (sysnum s);
@@ -36,9 +33,9 @@ Fixpoint replay (sched : list nat) (s : st) : list tm * st :=
   match sched with
   | [] => ([], s)
   | i :: r =>
-      let lab := match nth_error (thr s) i with Some p => label_of p | None => LNone end in
+      let lab := match nth_error (thr s) i with Some p => pc_code p | None => 0 end in
       match step i s with
-      | Some s' => let (out, sf) := replay r s' in (TL (TN (label_code lab) :: proj s') :: out, sf)
+      | Some s' => let (out, sf) := replay r s' in (TL (TN lab :: proj s') :: out, sf)
       | None => ([TL [TN 99; TN (N.of_nat i)]], s)
       end
   end.
